@@ -70,9 +70,6 @@ func runC05(c *kit.Ctx) {
 		}
 		return ""
 	}
-	isParam := func(f *kit.Func, v *types.Var) func(ast.Expr) bool {
-		return func(e ast.Expr) bool { return kit.ObjOf(f.Info(), e) == v }
-	}
 	edgeInsert := func(call *ast.CallExpr) bool {
 		for _, s := range m.sql.Sites {
 			if s.Call == call && s.HasVerb("INSERT", "edges") {
@@ -116,7 +113,7 @@ func runC05(c *kit.Ctx) {
 		sc := &scenario{c: c, name: "self-edge", f: ew.F, batch: map[types.Object]bool{ew.Batch: true},
 			init: kit.NewS().Set("a:self", "T"), forbidden: isBegin}
 		sc.atom = func(sc *scenario, e ast.Expr) (string, bool, bool) {
-			if neg, ok := eqAtom(e, isParam(ew.F, ew.IDs[0]), isParam(ew.F, ew.IDs[1])); ok {
+			if neg, ok := eqAtom(e, scParam(sc, ew.IDs[0]), scParam(sc, ew.IDs[1])); ok {
 				return "self", neg, true
 			}
 			return "", false, false
@@ -138,7 +135,7 @@ func runC05(c *kit.Ctx) {
 			init: kit.NewS().Set("a:isroot", "T").Set("a:tomb", "T"), forbidden: isBegin}
 		sc.atom = func(sc *scenario, e ast.Expr) (string, bool, bool) {
 			for _, idp := range ew.IDs {
-				if neg, ok := eqAtom(e, isParam(ew.F, idp), func(x ast.Expr) bool { return m.isRootIDExpr(ew.F, x) }); ok {
+				if neg, ok := eqAtom(e, scParam(sc, idp), func(x ast.Expr) bool { return m.isRootIDExpr(ew.F, x) }); ok {
 					return "isroot", neg, true
 				}
 			}
@@ -390,24 +387,7 @@ func walkFuncs(c *kit.Ctx, m *storeModel) map[*kit.Func]bool {
 		if !hasBool {
 			continue
 		}
-		readsEdges := false
-		for _, s := range m.sql.Sites {
-			if s.F.Root() != f.Root() && s.F != f {
-				continue
-			}
-			if s.F != f {
-				// site belongs to another literal of the same root: only count
-				// sites lexically inside f
-				if !(f.Node().Pos() <= s.Call.Pos() && s.Call.End() <= f.Node().End()) {
-					continue
-				}
-			}
-			for _, st := range s.Stmts {
-				if st.Verb == "SELECT" && st.Table == "edges" && (contains(st.Where, "down") || contains(st.Where, "up")) {
-					readsEdges = true
-				}
-			}
-		}
+		readsEdges := edgeQuerySiteOf(c, m, f, 0) != nil
 		if !readsEdges {
 			continue
 		}
@@ -613,16 +593,26 @@ func checkWalkShape(c *kit.Ctx, m *storeModel, wf *kit.Func, o *kit.Ob) {
 	if !recursive {
 		// iterative: the parent query must return every row (Query / a slice-returning
 		// wrapper, not QueryRow), inside a loop, rows pushed unconditionally
-		var site *kit.SQLSite
-		for _, sx := range m.sql.Sites {
-			if sx.F == wf && sx.HasVerb("SELECT", "edges") {
-				site = sx
+		site := edgeQuerySiteOf(c, m, wf, 0)
+		// the query (or the helper that runs it) must be reached from inside a loop of wf
+		inLoop := false
+		ast.Inspect(wf.Body, func(n ast.Node) bool {
+			switch n.(type) {
+			case *ast.ForStmt, *ast.RangeStmt:
+				ast.Inspect(n, func(x ast.Node) bool {
+					if call, ok := x.(*ast.CallExpr); ok {
+						if site != nil && call == site.Call {
+							inLoop = true
+						}
+						if cf := wf.CalleeFunc(call); cf != nil && site != nil && edgeQuerySiteOf(c, m, cf, 1) == site {
+							inLoop = true
+						}
+					}
+					return true
+				})
 			}
-		}
-		inLoop := site != nil && wf.Enclosing(site.Call, func(n ast.Node) bool { _, ok := n.(*ast.ForStmt); return ok }) != nil
-		if site != nil && wf.Enclosing(site.Call, func(n ast.Node) bool { _, ok := n.(*ast.RangeStmt); return ok }) != nil {
-			inLoop = true
-		}
+			return true
+		})
 		switch {
 		case site == nil:
 			o.Undecided("%s: edge query not found", wf.Name)
@@ -844,13 +834,7 @@ func checkHandlers(c *kit.Ctx, m *storeModel, r6, r4ack, r6up *kit.Rule) {
 		if msg == nil {
 			continue
 		}
-		var wcall *ast.CallExpr
-		var w *pointWriter
-		for _, call := range f.AllCalls(false) {
-			if x := m.writerOf(f, call); x != nil {
-				wcall, w = call, x
-			}
-		}
+		wcall, w := findWriterCall(m, f, 0)
 		if w == nil {
 			continue
 		}
@@ -882,6 +866,9 @@ func handlerFlow(c *kit.Ctx, m *storeModel, f *kit.Func, msg *types.Var, wcall *
 		return strings.HasPrefix(q, natsPkg+".(*Conn).Publish") || strings.HasPrefix(q, clientPkg+".Send")
 	}
 	st := &kit.Std{F: f}
+	st.ShouldInline = func(cf *kit.Func, call *ast.CallExpr) bool {
+		return m.writerOf(st.Cur(), call) == nil && containsCall(cf, wcall, 0)
+	}
 	st.ErrTag = func(call *ast.CallExpr, s kit.S) string {
 		if call == wcall {
 			return "writer"
@@ -914,6 +901,9 @@ func handlerFlow(c *kit.Ctx, m *storeModel, f *kit.Func, msg *types.Var, wcall *
 					nilArg = true
 				}
 				if o := kit.ObjOf(info, a); o != nil && isErrorType(o.Type()) && s.Get("nn:"+kit.VarID(o)) == "F" {
+					nilArg = true
+				}
+				if ac, ok := ast.Unparen(a).(*ast.CallExpr); ok && st.CallResult(ac, 0, s) == "nil" {
 					nilArg = true
 				}
 			}
@@ -1188,4 +1178,95 @@ func checkWalkRoles(c *kit.Ctx, m *storeModel, ew *pointWriter, wf *kit.Func, si
 		return
 	}
 	o.OK("walks %s from %s searching %s; target forwarded, all rows visited", map[string]string{"down": "up", "up": "down"}[dir], wantStart.Name(), wantTarget.Name())
+}
+
+// scParam matches an expression that denotes the given parameter of the analysed
+// function, also from inside a helper evaluated inline (parameters resolved to
+// the arguments they are bound to).
+func scParam(sc *scenario, v *types.Var) func(ast.Expr) bool {
+	return func(e ast.Expr) bool { return sc.objOf(e) == types.Object(v) }
+}
+
+// edgeQuerySiteOf finds the SELECT … FROM edges WHERE down/up site executed by f
+// itself or by a same-package helper it calls (two levels).
+func edgeQuerySiteOf(c *kit.Ctx, m *storeModel, f *kit.Func, depth int) *kit.SQLSite {
+	for _, sx := range m.sql.Sites {
+		inF := sx.F == f
+		if !inF && sx.F.Root() == f.Root() && f.Lit != nil {
+			inF = f.Node().Pos() <= sx.Call.Pos() && sx.Call.End() <= f.Node().End()
+		}
+		if !inF {
+			continue
+		}
+		for _, st := range sx.Stmts {
+			if st.Verb == "SELECT" && st.Table == "edges" && (contains(st.Where, "down") || contains(st.Where, "up")) {
+				return sx
+			}
+		}
+	}
+	if depth >= 2 {
+		return nil
+	}
+	for _, call := range f.AllCalls(false) {
+		if cf := f.CalleeFunc(call); cf != nil && cf != f && cf.PkgRel() == "store" && cf.Lit == nil {
+			if _, isWrapper := m.sql.Wrappers[cf]; isWrapper {
+				continue // generic query wrappers are not ancestry helpers
+			}
+			if sx := edgeQuerySiteOf(c, m, cf, depth+1); sx != nil {
+				return sx
+			}
+		}
+	}
+	return nil
+}
+
+// findWriterCall finds the call of a point writer made by f, directly or inside a
+// same-package helper (two levels): handlers that delegate the write to a helper
+// are still handlers of that writer.
+func findWriterCall(m *storeModel, f *kit.Func, depth int) (*ast.CallExpr, *pointWriter) {
+	for _, call := range f.AllCalls(false) {
+		if x := m.writerOf(f, call); x != nil {
+			return call, x
+		}
+	}
+	if depth >= 2 {
+		return nil, nil
+	}
+	for _, call := range f.AllCalls(false) {
+		cf := f.CalleeFunc(call)
+		if cf == nil || cf == f || cf.PkgRel() != f.PkgRel() || cf.Body == nil {
+			continue
+		}
+		isWriter := false
+		for _, w := range m.writers {
+			if w.F == cf {
+				isWriter = true
+			}
+		}
+		if isWriter {
+			continue
+		}
+		if wc, w := findWriterCall(m, cf, depth+1); w != nil {
+			return wc, w
+		}
+	}
+	return nil, nil
+}
+
+// containsCall reports whether call lies (transitively, two levels) in f's body.
+func containsCall(f *kit.Func, target *ast.CallExpr, depth int) bool {
+	for _, call := range f.AllCalls(false) {
+		if call == target {
+			return true
+		}
+	}
+	if depth >= 2 {
+		return false
+	}
+	for _, call := range f.AllCalls(false) {
+		if cf := f.CalleeFunc(call); cf != nil && cf != f && cf.PkgRel() == f.PkgRel() && cf.Body != nil && containsCall(cf, target, depth+1) {
+			return true
+		}
+	}
+	return false
 }
